@@ -2192,6 +2192,39 @@ fn get_flow_assignment_info(
     Ok(info)
 }
 
+/// Narrow the previous type of an assigned ref by the assigned expression type.
+///
+/// For a union RHS every member is narrowed on its own. Without an explicit declared type the
+/// previous runtime type does not restrict what may be assigned, so members that do not overlap
+/// with it are kept as they are instead of being dropped from the result.
+fn narrow_assignment_expr_type(
+    db: &DbIndex,
+    source_type: &LuaType,
+    expr_type: &LuaType,
+    declared: Option<LuaType>,
+    keep_unmatched_members: bool,
+) -> Option<LuaType> {
+    if keep_unmatched_members && let LuaType::Union(union) = expr_type {
+        let mut matched = false;
+        let members = union
+            .into_vec()
+            .into_iter()
+            .map(|member| {
+                match narrow_down_type(db, source_type.clone(), member.clone(), declared.clone()) {
+                    Some(narrowed) => {
+                        matched = true;
+                        narrowed
+                    }
+                    None => member,
+                }
+            })
+            .collect::<Vec<_>>();
+        return matched.then(|| TypeOps::union_all(db, members));
+    }
+
+    narrow_down_type(db, source_type.clone(), expr_type.clone(), declared)
+}
+
 fn finish_assignment_result(
     db: &DbIndex,
     cache: &mut LuaInferCache,
@@ -2231,7 +2264,13 @@ fn finish_assignment_result(
                 _ => None,
             });
 
-        narrow_down_type(db, source_type.clone(), expr_type.clone(), declared)
+        narrow_assignment_expr_type(
+            db,
+            source_type,
+            expr_type,
+            declared,
+            fallback_type.is_none(),
+        )
     };
 
     if reuse_source_narrowing || preserves_assignment_expr_type(expr_type) {
